@@ -53,6 +53,8 @@ def run(ctx):
         ctx.guard(conflicts, ctx, cfg, fs)
         import c08, c18, c05
         ctx.guard(consumers.forkers, ctx, cfg, fs, 'F.fork')
+        # a command name is consumed once: the item after it is never compared with the remaining aliases (shared with C08)
+        ctx.guard(c08.first_name_only, ctx, cfg, fs, 'O.order')
         import c19
         # chained adjacent commands inside a repeated choice: the retry window of a command that took nothing is the empty window at
         # its start, found by scanning the scope from its first item (shared with C19)
